@@ -16,6 +16,7 @@ import (
 	"math"
 	"math/rand/v2"
 	"sort"
+	"strconv"
 	"strings"
 	"testing"
 	"time"
@@ -52,6 +53,19 @@ type Op struct {
 	K string   `json:"k"`
 	V []uint64 `json:"v,omitempty"`
 	Q int      `json:"q"` // operand provider, -1 if none
+	// Run: the values of one call given as {start, count, stride} (one Add of tens of thousands of IDs)
+	Run []uint64 `json:"run,omitempty"`
+}
+
+func (o Op) vals() []uint64 {
+	if len(o.Run) != 3 {
+		return o.V
+	}
+	vs := append([]uint64{}, o.V...)
+	for i := uint64(0); i < o.Run[1]; i++ {
+		vs = append(vs, o.Run[0]+i*o.Run[2])
+	}
+	return vs
 }
 
 type WL struct {
@@ -87,7 +101,69 @@ var (
 	reads    = []string{"contains", "card", "slice", "each", "clone", "eachstop", "snapwalk", "eachpanic"}
 )
 
+// genBigConc: several callers on shared wrappers that hold tens of thousands of values: a small
+// receiver combined with a large frozen operand while another caller edits the receiver, and single
+// calls that carry more values than any container or batch size while another caller observes or
+// destroys the same set. Every call must still take effect at one instant.
+func genBigConc(r *rand.Rand) WL {
+	w := WL{Mode: "w1", Width: []int{32, 64}[r.IntN(2)]}
+	starts := []uint64{0, 1, 60000, 1 << 20}
+	if w.Width == 64 {
+		starts = append(starts, 1<<32-3000, 1<<40)
+	}
+	start := starts[r.IntN(len(starts))]
+	stride := uint64(1 + r.IntN(2))
+	count := uint64([]int{5000, 16384, 20000, 40000, 70000}[r.IntN(5)])
+	inB := func() uint64 { return start + uint64(r.IntN(int(count)))*stride }
+	// p0: small shared receiver; p1: large frozen operand; p2: shared set that receives one huge Add
+	var init []uint64
+	for i := 0; i < r.IntN(5); i++ {
+		init = append(init, inB())
+	}
+	if r.IntN(2) == 0 {
+		init = append(init, start+count*stride+7)
+	}
+	w.Provs = []Prov{
+		{Impl: "ts", Owner: -1, Init: init},
+		{Impl: "ts", Owner: -1, Frozen: true, Run: []uint64{start, count, stride}},
+		{Impl: "ts", Owner: -1, Init: []uint64{start + 3}},
+	}
+	// client 0: binary operations of the small receiver with the large operand
+	var c0 []Op
+	for i := 0; i < 1+r.IntN(2); i++ {
+		c0 = append(c0, Op{P: 0, K: []string{"and", "and", "and", "andnot", "xor", "or"}[r.IntN(6)], Q: 1})
+	}
+	// client 1: edits and reads of the receiver with values the operand holds
+	var c1 []Op
+	for i := 0; i < 1+r.IntN(3); i++ {
+		o := Op{P: 0, Q: -1, K: []string{"add", "add", "checkedadd", "remove", "contains", "card"}[r.IntN(6)], V: []uint64{inB()}}
+		if o.K == "add" && r.IntN(2) == 0 {
+			o.V = append(o.V, inB())
+		}
+		c1 = append(c1, o)
+	}
+	w.Clients = [][]Op{c0, c1}
+	if r.IntN(2) == 0 {
+		// client 2: one Add of many values into p2; client 1 also looks at (or empties) p2
+		n := uint64([]int{5000, 65536, 65537, 70000, 131073, 140000}[r.IntN(6)])
+		big := Op{P: 2, K: "add", Q: -1, Run: []uint64{start, n, 1}}
+		w.Clients = append(w.Clients, []Op{big})
+		k := []string{"card", "card", "clear", "contains", "remove", "slice"}[r.IntN(6)]
+		obs := Op{P: 2, K: k, Q: -1, V: []uint64{start + n - 1}}
+		at := r.IntN(len(c1) + 1)
+		c1 = append(c1[:at:at], append([]Op{obs}, c1[at:]...)...)
+		w.Clients[1] = c1
+		if r.IntN(3) == 0 {
+			w.Clients[0] = append([]Op{}, Op{P: 2, K: []string{"card", "contains"}[r.IntN(2)], Q: -1, V: []uint64{start + n/2}})
+		}
+	}
+	return w
+}
+
 func gen(r *rand.Rand) WL {
+	if r.IntN(30) == 0 {
+		return genBigConc(r)
+	}
 	w := WL{Width: []int{32, 64}[r.IntN(2)]}
 	u := universe(w.Width, r)
 	nc := 1 + r.IntN(3)
@@ -214,11 +290,12 @@ type set map[uint64]struct{}
 
 func (s set) key() string {
 	ks := s.sorted()
-	var b strings.Builder
+	b := make([]byte, 0, 8*len(ks))
 	for _, k := range ks {
-		fmt.Fprintf(&b, "%d,", k)
+		b = strconv.AppendUint(b, k, 10)
+		b = append(b, ',')
 	}
-	return b.String()
+	return string(b)
 }
 func (s set) sorted() []uint64 {
 	ks := make([]uint64, 0, len(s))
@@ -361,8 +438,7 @@ var model = porcupine.Model{
 			s = set{}
 			for _, f := range strings.Split(st, ",") {
 				if f != "" {
-					var v uint64
-					fmt.Sscan(f, &v)
+					v, _ := strconv.ParseUint(f, 10, 64)
 					s[v] = struct{}{}
 				}
 			}
@@ -497,7 +573,7 @@ func run[T uint32 | uint64](t *testing.T, w WL, cfg simrt.Config) simh.Outcome {
 	}
 	for _, c := range w.Clients {
 		for _, o := range c {
-			for _, v := range o.V {
+			for _, v := range o.vals() {
 				uni[v] = struct{}{}
 			}
 		}
@@ -516,6 +592,7 @@ func run[T uint32 | uint64](t *testing.T, w WL, cfg simrt.Config) simh.Outcome {
 					}
 				}
 				for _, op := range ops {
+					op.V, op.Run = op.vals(), nil
 					i := in{P: op.P, K: op.K, V: op.V, Init: w.Provs[op.P].values()}
 					var operand cardinality.Duplex[T]
 					if op.Q >= 0 {
@@ -628,6 +705,9 @@ func run[T uint32 | uint64](t *testing.T, w WL, cfg simrt.Config) simh.Outcome {
 		}
 		return o
 	}
+	if bigConc(w) {
+		counters["large_concurrent_runs"]++
+	}
 	switch porcupine.CheckOperationsTimeout(model, all, 20*time.Second) {
 	case porcupine.Illegal:
 		o.Class, o.Detail = "oracle:set_algebra", "history is not explained by the set model: "+firstBad(all)
@@ -684,6 +764,18 @@ func render(ops []porcupine.Operation) []string {
 	return r
 }
 
+func bigConc(w WL) bool {
+	if len(w.Clients) < 2 {
+		return false
+	}
+	for _, p := range w.Provs {
+		if len(p.Run) == 3 {
+			return true
+		}
+	}
+	return false
+}
+
 func exec(t *testing.T, w WL, cfg simrt.Config) simh.Outcome {
 	if w.Width == 32 {
 		return run[uint32](t, w, cfg)
@@ -737,6 +829,9 @@ func TestSim(t *testing.T) {
 			}
 			if len(w.Clients) == 1 {
 				cfg.SiteSample = 1e-9 // a single caller cannot be interleaved with anybody
+			}
+			if bigConc(w) {
+				cfg.SiteSample = 1e-9 // interleaving at the wrappers' locks only: the sets are too large for more
 			}
 			for _, p := range w.Provs {
 				if len(p.Run) == 3 {
